@@ -476,6 +476,10 @@ def run_pipeline(chk, prop, n_scenes, families=FAMILIES, crash_is_violation=Fals
                          'messages': res.get('msgs'), 'raised': res['exc']} if task[1] < 1 else None)
         if res['missing']:
             chk.mismatch('wrapper targets missing', str(res['missing']), replay)
+        if res.get('impure_queries') and 'clouds_above_msa_buffer' in res['impure_queries'] and prop in ('C02', 'C07'):
+            # the flag is a function of the hits cropped at construction: a value that changes when messages are read is wrong
+            # before or after
+            chk.spec_fail('C07.flag-iff', 'clouds_above_msa_buffer changes when the messages / tables are read', replay, signature=None)
         if res.get('impure_queries'):
             chk.mismatch('reading messages / tables / properties leaves the chunk as it was', f"changed by the queries: {res['impure_queries']}", replay)
         if res.get('eff_mismatch'):
